@@ -10,10 +10,13 @@ import (
 	"bytes"
 	"fmt"
 	"net"
+	"os"
 	"strings"
 	"testing"
 	"time"
 
+	cj "github.com/refraction-networking/conjure/pkg/station/lib"
+	"github.com/refraction-networking/conjure/pkg/station/log"
 	"github.com/refraction-networking/conjure/pkg/transports/wrapping/prefix"
 	pb "github.com/refraction-networking/conjure/proto"
 
@@ -316,7 +319,15 @@ func c17Scenario(r *sim.Run) {
 			time.Sleep(time.Second)
 		}
 		w.settle()
-		// housekeeping that logs: a sweep after expiry
+		// housekeeping that logs: the periodic statistics of every module main() registers that
+		// exists in this world (normal and verbose epoch), then a sweep after expiry
+		statLogger := log.New(os.Stdout, "[STATS] ", 0)
+		for epoch := 0; epoch < 2; epoch++ {
+			w.rm.PrintAndReset(statLogger)
+			cj.GetProxyStats().PrintAndReset(statLogger)
+			w.cm.PrintAndReset(statLogger)
+			cj.Stat().PrintStats(epoch == 1)
+		}
 		time.Sleep(11 * time.Minute)
 		w.rm.RemoveOldRegistrations()
 		finished = true
